@@ -152,6 +152,30 @@ def check_full_decode_accepts(rep, prog, rule):
         zero_length_reads(rep, I, "sectionFun(%s)" % sid_name(sid), rule)
 
 
+def check_no_value_rejection(rep, prog, rule, sids=None):
+    """a section decoder gives up only when the stream's range check fails (the section is cut short): an exception raised
+    anywhere else depends on the VALUE of a field - an enum / flag conversion, a look-up without fall-back, a sanity test -
+    and rejects logs whose layout is intact"""
+    from .c12 import tries_covering
+    n = 0
+    for sid in (sids or list(DISPATCH)):
+        for plugins in ((True, False) if sid in (0x5053, 0x5544, 0x4544) else (True,)):
+            I, st, out = run_sectionfun(prog, sid, plugins)
+            n += 1
+            where = "sectionFun(%s)%s" % (sid_name(sid), "" if plugins else " -P")
+            # (explicit raise statements and enum / flag conversions; look-ups the interpreter cannot prove safe are not
+            # counted - the path condition that protects them may be beyond its reasoning)
+            import ast as _ast
+            bad = [e for e in I.events if e.kind == "raise" and not e.func.startswith("pel.datastream.") and
+                   (isinstance(e.node, _ast.Raise) or (isinstance(e.node, _ast.Call) and repr(e.data[0]).startswith("call:ValueError("))) and
+                   not tries_covering(I.events, e) and e.guard != FALSE and not pelx.unsat(e.guard)[0]]
+            rep.check(not bad, rule, "%s raises only through the stream's range check" % where, bad[0].func if bad else where,
+                      bad[0].node if bad else "raise", "the decoder raises %s when %s: a section whose layout is intact is rejected "
+                      "because of the value of a field" % (repr(bad[0].data[0])[:80] if bad else "", repr(bad[0].guard)[:160] if bad else ""),
+                      node=bad[0].node if bad else None)
+    rep.count("decoder runs scanned for value-dependent raises", n)
+
+
 def check_src_consumption(rep, I, st, where):
     got = pelx.stream_index(I, st)
     flag = compare("ne", binop("bitand", IntF(1, 1), Const(1)), Const(0))
@@ -631,6 +655,13 @@ def run(rep, prog, thorough):
     check_loop(rep, prog)
     check_buildoutput(rep, prog)
     # "decoded from exactly its own bytes": the user-data sections hand their whole payload on (rule shared with C04)
-    from .c04 import check_sections
+    from .c04 import check_sections, check_parse
     check_sections(rep, prog)
+    # "whatever section follows is still decoded": a free-form section whose parser plug-in fails is contained in its own entry
+    # (rule shared with C04)
+    check_parse(rep, prog)
+    # "decoded intact": an SRC entry shows every callout substructure its bytes hold (rule shared with C03)
+    from .c03 import check_callout_rendering
+    check_callout_rendering(rep, prog)
+    check_no_value_rejection(rep, prog, "C01.R4.consumption")
     rep.floor("sectionFun interpretations", rep.analysed.get("sectionFun interpretations", 0), 20)
